@@ -640,6 +640,98 @@ class PJoinMethod(Method):
         return sig + "\n  " + self.block(self.fdef.body, self.default_end)
 
 
+class PJoinBeginMethod(PJoinMethod):
+    """`PartialJoin._begin_apply` (T-f).  The method is monadic (`applied_common_columns` may raise) and calls itself
+    on the replacement whose common columns are resolved; it is translated with an explicit recursion budget.  Accepted
+    beyond the common grammar: the test `self.binary.max_columns != self.binary.min_columns`, the assignment from
+    `self.binary.applied_common_columns(self.fixed, target)`, `dataclasses.replace(self, binary=dataclasses.replace(
+    self.binary, min_columns=A, max_columns=B))`, the idiom `if preferred_engine is None: preferred_engine = E`, and
+    the two returns `<replacement>._begin_apply(target, preferred_engine)` / `super()._begin_apply(target,
+    preferred_engine)`."""
+
+    DICT = dict(PJoinMethod.DICT, **{
+        "target.columns": ("(Rel.columns target)", "cols"),
+        "self.fixed.engine": ("(Rel.engine p.fixed)", "engine"),
+        "target.engine": ("(Rel.engine target)", "engine"),
+    })
+
+    def __init__(self, cls):
+        super().__init__(cls, "_begin_apply")
+        self.env = {"preferred_engine": ("pref", "optengine")}
+
+    def block(self, stmts, rest_k):
+        if stmts:
+            s, tail = stmts[0], stmts[1:]
+            k = lambda: self.block(tail, rest_k)   # noqa: E731
+            if isinstance(s, ast.If) and ast.unparse(s.test) == "self.binary.max_columns != self.binary.min_columns":
+                saved = dict(self.env)
+                a = self.block(s.body, k)
+                self.env = dict(saved)
+                b = self.block(s.orelse, k)
+                self.env = saved
+                return f"(if (!JoinOp.resolved p.join) then {a} else {b})"
+            if isinstance(s, ast.Assign) and isinstance(s.targets[0], ast.Name):
+                name, vsrc = s.targets[0].id, ast.unparse(s.value)
+                if vsrc == "self.binary.applied_common_columns(self.fixed, target)":
+                    self.counter += 1
+                    v = f"{name}_{self.counter}"
+                    self.env[name] = (v, "cols")
+                    return ("(match JoinOp.appliedCommonColumns p.join (Rel.columns p.fixed) (Rel.columns target) with "
+                            f"| Except.error e => Except.error e | Except.ok {v} => {k()})")
+                if isinstance(s.value, ast.Call) and ast.unparse(s.value.func) == "dataclasses.replace":
+                    c = s.value
+                    kws = {kw.arg: kw.value for kw in c.keywords}
+                    inner = kws.get("binary")
+                    if (len(c.args) == 1 and ast.unparse(c.args[0]) == "self" and set(kws) == {"binary"}
+                            and isinstance(inner, ast.Call) and ast.unparse(inner.func) == "dataclasses.replace"
+                            and len(inner.args) == 1 and ast.unparse(inner.args[0]) == "self.binary"
+                            and {kw.arg for kw in inner.keywords} == {"min_columns", "max_columns"}):
+                        ik = {kw.arg: kw.value for kw in inner.keywords}
+                        a, at = self.expr(ik["min_columns"])
+                        b, bt = self.expr(ik["max_columns"])
+                        if at != "cols" or bt != "cols":
+                            raise Untranslatable("replaced common columns are not column sets")
+                        self.counter += 1
+                        v = f"{name}_{self.counter}"
+                        self.env[name] = (v, "pjoin")
+                        return (f"(let {v} : PJoin := {{ p with join := {{ p.join with minCols := {a}, "
+                                f"maxCols := some {b} }} }}; {k()})")
+                    raise Untranslatable(f"dataclasses.replace: {vsrc[:60]}")
+            if (isinstance(s, ast.If) and ast.unparse(s.test) == "preferred_engine is None" and not s.orelse
+                    and len(s.body) == 1 and isinstance(s.body[0], ast.Assign)
+                    and ast.unparse(s.body[0].targets[0]) == "preferred_engine"):
+                cur = self.env.get("preferred_engine")
+                if cur is None or cur[1] != "optengine":
+                    raise Untranslatable("preferred_engine re-assigned twice")
+                e, et = self.expr(s.body[0].value)
+                if et != "engine":
+                    raise Untranslatable("default preferred engine is not an engine")
+                self.counter += 1
+                v = f"preferred_engine_{self.counter}"
+                self.env["preferred_engine"] = (v, "engine")
+                return f"(let {v} : Engine := Option.getD {cur[0]} {e}; {k()})"
+        return super().block(stmts, rest_k)
+
+    def ret(self, e):
+        src = ast.unparse(e)
+        pe = self.env.get("preferred_engine")
+        if src.endswith("._begin_apply(target, preferred_engine)") and not src.startswith("super()"):
+            who = src[: -len("._begin_apply(target, preferred_engine)")]
+            if who in self.env and self.env[who][1] == "pjoin" and pe is not None and pe[1] == "optengine":
+                return f"(PartialJoin_begin_apply fuel {self.env[who][0]} target {pe[0]})"
+            raise Untranslatable(f"recursive call {src[:60]}")
+        if src == "super()._begin_apply(target, preferred_engine)":
+            if pe is not None and pe[1] == "engine":
+                return f"(Except.ok (p, {pe[0]}))"
+            raise Untranslatable("super()._begin_apply with an optional preferred engine")
+        raise Untranslatable(f"return {src[:60]}")
+
+    def lean(self):
+        return ("def PartialJoin_begin_apply : Nat → PJoin → Rel → Option Engine → Except Err (PJoin × Engine)\n"
+                "  | 0, _, _, _ => Except.error Err.fuel\n"
+                "  | fuel+1, p, target, pref =>\n    " + self.block(self.fdef.body, self.default_end))
+
+
 REL_CTORS = {
     "LeafRelation": ".leaf _ _ _ _ _ _ _ _",
     "Materialization": ".mat _ _ {t}",
@@ -797,6 +889,9 @@ def gen_rel_ops(problems: list[str]) -> str:
                            "def Transfer_simplify (dest : Engine) (target : Rel) : Option Rel :=",
                            {"cls.simplify": "Transfer_simplify dest"}, "optrel"),
          "def Transfer_simplify (dest : Engine) (target : Rel) : Option Rel :=\n  none"),
+        ("PartialJoin._begin_apply", lambda: PJoinBeginMethod(PartialJoin),
+         "def PartialJoin_begin_apply (fuel : Nat) (p : PJoin) (target : Rel) (pref : Option Engine) : "
+         "Except Err (PJoin × Engine) :=\n  Except.error Err.fuel"),
         ("Chain._begin_apply", lambda: ChainMethod(r.Chain),
          "def Chain_begin_apply (lhs rhs : Rel) : Except Err BOp :=\n  Except.error Err.fuel"),
     ]
